@@ -37,6 +37,10 @@ def gen():
     b = F.fn_body(t, "is_small_unit", MOD)
     m = re.fullmatch(r"\s*(-?\d+)\s*<=\s*n\s*&&\s*n\s*<\s*(-?\d+)\s*", b)
     if not m:
+        # the same test from the other side (canon turns `LO <= n` into `n >= LO`) or as a half-open range
+        m = (re.fullmatch(r"\s*n\s*>=\s*(-?\d+)\s*&&\s*n\s*<\s*(-?\d+)\s*", b)
+             or re.fullmatch(r"\s*\(\s*(-?\d+)\s*\.\.\s*(-?\d+)\s*\)\.contains\(&n\)\s*", b))
+    if not m:
         raise F.FactError("is_small_unit is no longer `LO <= n && n < HI`")
     out.append("Definition small_unit_lo : Z := %s.\nDefinition small_unit_hi : Z := %s.\n" %
                (F.coq_int(int(m.group(1)), "Z"), F.coq_int(int(m.group(2)), "Z")))
@@ -69,7 +73,8 @@ def gen():
     if not m:
         raise F.FactError("done(): final comma-group check not recognised")
     out.append("(* done() REJECTS when has_comma and digit_length <cmp> n *)\nDefinition last_group_reject_cmp : cmp := %s.\nDefinition last_group_len : N := %s.\n" % (CMP[m.group(1)], F.coq_int(int(m.group(2)))))
-    if not re.search(r"let\s+ret\s*=\s*self\.subtotal\.add\(&mut\s+self\.tmp\)\s*&&\s*self\.total\.add\(&mut\s+self\.subtotal\)\s*;\s*if\s+!ret\s*\{\s*return\s+false;\s*\}\s*if\s+self\.has_hanging_point", b):
+    acc = r"self\.subtotal\.add\(&mut\s+self\.tmp\)\s*&&\s*self\.total\.add\(&mut\s+self\.subtotal\)"
+    if not re.search(r"(?:let\s+(\w+)\s*=\s*" + acc + r"\s*;\s*if\s+!\1|if\s+!\(\s*" + acc + r"\s*\))\s*\{\s*return\s+false;\s*\}\s*if\s+self\.has_hanging_point", b):
         raise F.FactError("done(): accumulation, early return on a malformed number, hanging point order not recognised")
     # --- StringNumber
     b = F.fn_body(s, "new", SN)
@@ -80,10 +85,10 @@ def gen():
         raise F.FactError("StringNumber::new: point starts at %s (the model encodes `no point` as a negative value)" % m.group(2))
     out.append("Definition new_scale : N := %s.\nDefinition new_all_zero : bool := %s.\n" % (F.coq_int(int(m.group(1))), m.group(3)))
     b = F.fn_body(s, "add", SN)
-    m = re.search(r"if\s+self\.scale\s*(>=|>|<=|<|==)\s*length\s*\{\s*self\.fill_zero\(self\.scale\s*-\s*length\)", b)
+    m = re.search(r"if\s+" + F.cmp_alt(r"self\.scale", "length", "fit", (">=", ">", "<=", "<", "==")) + r"\s*\{\s*self\.fill_zero\(self\.scale\s*-\s*length\)", b)
     if not m:
         raise F.FactError("StringNumber::add: fit test `self.scale >= length` not recognised")
-    out.append("(* add succeeds when scale <cmp> int_length(addend) *)\nDefinition add_fit_cmp : cmp := %s.\n" % CMP[m.group(1)])
+    out.append("(* add succeeds when scale <cmp> int_length(addend) *)\nDefinition add_fit_cmp : cmp := %s.\n" % CMP[F.cmp_op(m, "fit")])
     b = F.fn_body(s, "set_point", SN)
     m = re.search(r"if\s+self\.scale\s*==\s*(\d+)\s*&&\s*self\.point\s*<\s*(\d+)\s*\{\s*self\.point\s*=\s*self\.significand\.len\(\)", b)
     if not m or m.group(1) != "0" or m.group(2) != "0":
@@ -94,8 +99,8 @@ def gen():
         raise F.FactError("StringNumber::shift_scale: implicit coefficient not recognised")
     out.append("Definition implicit_coefficient : N := %s.\n" % F.coq_int(int(m.group(1))))
     b = F.fn_body(s, "normalize_scale", SN)
-    m = re.search(r"if\s+n_scale\s*(>=|>)\s*self\.scale\s+as\s+i32", b)
+    m = re.search(r"if\s+" + F.cmp_alt("n_scale", r"\(?self\.scale\s+as\s+i32\)?", "norm", (">=", ">")), b)
     if not m:
         raise F.FactError("StringNumber::normalize_scale comparison not recognised")
-    out.append("Definition normalize_cmp : cmp := %s.\n" % CMP[m.group(1)])
+    out.append("Definition normalize_cmp : cmp := %s.\n" % CMP[F.cmp_op(m, "norm")])
     return "".join(out)
